@@ -119,7 +119,10 @@ WaitCases == {
      EXCEPT !.seq = "waithit"],
   [W("httpcache", "http", "absent", "set", 0, [cc |-> "maxage6", expires |-> "absent", date |-> "now", dttl |-> "set"])
      EXCEPT !.seq = "waithit"],
-  [W("jwt_finalizer", "token", "mid7", "unset", 0, HttpNone) EXCEPT !.seq = "waithit"]
+  [W("jwt_finalizer", "token", "mid7", "unset", 0, HttpNone) EXCEPT !.seq = "waithit"],
+  (* the same with a response that is 54 s old already when it arrives (Age) *)
+  [W("httpcache", "http", "absent", "zero", 0, [cc |-> "maxage_aged", expires |-> "absent", date |-> "now", dttl |-> "zero"])
+     EXCEPT !.seq = "waithit"]
 }
 
 AllCases == MechCases \cup HttpCases \cup WaitCases
